@@ -74,17 +74,23 @@ def gen_rank(rnd: random.Random, rank: int, p: Dict[str, Any]) -> Dict[str, Any]
             a = rnd.random()
             if a < 0.7:
                 args: Dict[str, Any] = {}
-                if rnd.random() < 0.7:
-                    c = rnd.randint(0, 120) if corr_small else rnd.choice([rnd.randint(0, 120), rnd.randint(2 ** 20, 2 ** 31 - 1), rnd.randint(2 ** 31, 2 ** 32 - 1)])
-                    side = used_corr_dev if device else used_corr_host
-                    if c not in side:  # an id occurs at most once per side
-                        side.add(c)
-                        args["correlation"] = c
                 if device:
                     args["stream"] = e["tid"] if rnd.random() < 0.8 else rnd.choice(["7", "abc", -1, 0])
                     args["device"] = e["pid"]
                 elif rnd.random() < 0.08:
                     args["stream"] = rnd.choice(["7", "x", -1])
+                if rnd.random() < 0.7:
+                    c = rnd.randint(0, 120) if corr_small else rnd.choice([rnd.randint(0, 120), rnd.randint(2 ** 20, 2 ** 31 - 1), rnd.randint(2 ** 31, 2 ** 32 - 1)])
+                    # side by the documented rule (after stream normalisation): an id occurs at most once per side
+                    try:
+                        st_i = int(args.get("stream", -1))
+                    except ValueError:
+                        st_i = -1
+                    dev_rule = st_i >= 0 or e["name"] in ("Event Sync", "Context Sync")
+                    side = used_corr_dev if dev_rule else used_corr_host
+                    if c not in side:
+                        side.add(c)
+                        args["correlation"] = c
                 if rnd.random() < 0.3:
                     args["bytes"] = rnd.choice([12, 4096])
                 if rnd.random() < 0.2:
